@@ -14,18 +14,18 @@ import (
 // Event is one transition of the explored system. JSON-serialisable: replay
 // files are lists of events.
 type Event struct {
-	K      string        `json:"k"`                // alloc refresh perm chan adv send cdata peer
-	C      string        `json:"c,omitempty"`      // client name
-	Peers  []string      `json:"peers,omitempty"`  // peer names
-	N      uint16        `json:"n,omitempty"`      // channel number
-	L      int64         `json:"l"`                // LIFETIME seconds, -1 = absent
-	Rule   string        `json:"rule,omitempty"`   // advance rule
-	D      time.Duration `json:"d,omitempty"`      // advance amount (computed)
+	K      string        `json:"k"`                 // alloc refresh perm chan adv send cdata peer
+	C      string        `json:"c,omitempty"`       // client name
+	Peers  []string      `json:"peers,omitempty"`   // peer names
+	N      uint16        `json:"n,omitempty"`       // channel number
+	L      int64         `json:"l"`                 // LIFETIME seconds, -1 = absent
+	Rule   string        `json:"rule,omitempty"`    // advance rule
+	D      time.Duration `json:"d,omitempty"`       // advance amount (computed)
 	SameTx bool          `json:"same_tx,omitempty"` // Allocate retransmission
 	FixTx  string        `json:"fix_tx,omitempty"`  // use this fixed transaction id (shared between clients)
-	Fam    int           `json:"fam,omitempty"`    // REQUESTED-ADDRESS-FAMILY 4/6, 0 = absent
+	Fam    int           `json:"fam,omitempty"`     // REQUESTED-ADDRESS-FAMILY 4/6, 0 = absent
 	TCP    bool          `json:"tcp,omitempty"`
-	As     string        `json:"as,omitempty"` // authenticate as this user instead of the client's own
+	As     string        `json:"as,omitempty"`   // authenticate as this user instead of the client's own
 	Even   bool          `json:"even,omitempty"` // Allocate with EVEN-PORT (R bit set): the manager probes for an even port first
 	Fail   string        `json:"fail,omitempty"` // Allocate: "gen" = the relay address generator fails, "quota" = the quota handler refuses
 }
@@ -357,7 +357,7 @@ func (x *Exec) Apply(ev Event) *Viol { //nolint:gocyclo,cyclop,maintidx,gocognit
 
 				break
 			}
-			if !m.Allowed(p.IP) {
+			if !m.AllowedFor(ev.C, p.IP) {
 				wantCode = 403
 
 				break
@@ -413,7 +413,7 @@ func (x *Exec) Apply(ev Event) *Viol { //nolint:gocyclo,cyclop,maintidx,gocognit
 		if famOf(p.IP) != a.Fam {
 			return fail("policy", "family", 0)
 		}
-		if !m.Allowed(p.IP) {
+		if !m.AllowedFor(ev.C, p.IP) {
 			return fail("policy", "denied", 0)
 		}
 		if ex, ok := a.Chans[ev.N]; ok && !(ex.Peer.IP.Equal(p.IP) && ex.Peer.Port == p.Port) {
